@@ -414,6 +414,7 @@ func (s *configurationStore) Watch(ctx context.Context, ch chan<- configapi.Conf
 					}
 					if err := s.populate(ctx, configuration); err != nil {
 						log.Error(err)
+						close(ch)
 						return
 					}
 					select {
@@ -450,6 +451,7 @@ func (s *configurationStore) Watch(ctx context.Context, ch chan<- configapi.Conf
 					configuration.Version = uint64(entry.Version)
 					if err := s.populate(ctx, configuration); err != nil {
 						log.Error(err)
+						close(ch)
 						return
 					}
 					select {
